@@ -4,6 +4,7 @@ from __future__ import annotations
 import contextlib
 import fractions
 import io
+import sys
 import re
 
 import z3
@@ -24,6 +25,20 @@ class CompileResult:
         self.fn_name = None
 
 
+@contextlib.contextmanager
+def default_recursion_limit():
+    """the checker raises the interpreter's recursion limit for its own interpreter-in-interpreter; the code under test
+    must be run with the limit its users have (CPython's default of 1000), counted from the current depth"""
+    import inspect
+    old = sys.getrecursionlimit()
+    depth = len(inspect.stack(0))
+    sys.setrecursionlimit(min(old, 1000 + depth))
+    try:
+        yield
+    finally:
+        sys.setrecursionlimit(old)
+
+
 def real_generate(text, expose=False):
     """text -> (lexer -> parser -> PythonCodeGen.generate()), exactly the steps of
     ExperimentEvaluator.recompile; stdout/stderr captured."""
@@ -32,7 +47,7 @@ def real_generate(text, expose=False):
     r = CompileResult()
     buf = io.StringIO()
     try:
-        with contextlib.redirect_stdout(buf), contextlib.redirect_stderr(buf):
+        with contextlib.redirect_stdout(buf), contextlib.redirect_stderr(buf), default_recursion_limit():
             ast_ = parse_source(text)
             if ast_ is None:
                 r.error = ("ParseError", "parse_source returned None")
